@@ -161,6 +161,9 @@ pub trait Service<Request> {
     type Error;
     type Future;
     spec fn fut_of(&self, req: Request) -> Self::Future;
+    spec fn ready_now(&self) -> Poll<Result<(), Self::Error>>;
+    // A-tower-03: poll_ready reports the readiness of the service (a ghost property of its state)
+    fn poll_ready(&mut self, cx: &mut Context) -> (r: Poll<Result<(), Self::Error>>) ensures r == old(self).ready_now();
     // A-tower-02: Service::call returns the service's future for that request
     fn call(&mut self, req: Request) -> (f: Self::Future) ensures f == old(self).fut_of(req);
 }
@@ -282,6 +285,14 @@ pub open spec fn timeout_of(h: HMap) -> Option<nat> {
     u.fn(T, 'new', within='impl<S> GrpcTimeout<S>', display='GrpcTimeout::new',
          ensures=[Clause('G0_the_layer_keeps_the_configured_timeout', 'r.inner == inner && r.server_timeout == server_timeout')])
     u.close('}')
+    u.fn(T, 'poll_ready', within='impl<S, ReqBody> Service<Request<ReqBody>> for GrpcTimeout<S>', header='impl<S> GrpcTimeout<S> {', close=True, display='GrpcTimeout::poll_ready',
+         sig_edits=[lambda t: t.sub_code('R9', r'Self::Error', 'BoxError'), lambda t: t.sub_code('R12', r'fn poll_ready\(', 'fn poll_ready<ReqBody>('),
+                    lambda t: t.edit('R12', len(t.t.rstrip()), len(t.t.rstrip()), ' where S: Service<http::Request<ReqBody>>, S::Error: IntoBoxError')],
+         body_edits=[lambda t: t.sub_code('R3', r'\.map_err\(Into::into\)', '.map_err(|e| IntoBoxError::into(e))')],
+         closures={0: dict(params='e: S::Error', ret='(x: BoxError)', ensures=['x == e.as_box()'])},
+         ensures=[Clause('T0_ready_exactly_when_the_wrapped_service_is_its_error_boxed_and_the_configured_timeout_untouched',
+                         '''(match old(self).inner.ready_now() { Poll::Pending => r is Pending, Poll::Ready(Ok(_)) => r matches Poll::Ready(Ok(_)), Poll::Ready(Err(e)) => r == Poll::<Result<(), BoxError>>::Ready(Err(e.as_box())) })
+                && final(self).server_timeout == old(self).server_timeout''')])
     u.fn(T, 'call', within='impl<S, ReqBody> Service<Request<ReqBody>> for GrpcTimeout<S>',
          header='impl<S> GrpcTimeout<S> {', close=True,
          sig_edits=[lambda t: t.sub_code('R9', r'Self::Future', 'ResponseFuture<S::Future>'),
